@@ -862,6 +862,20 @@ def F48():
         r = "%s: %s" % (type(e).__name__, e)
     return not r.startswith("constructed"), "TapRootMultiSig([key], 1) -> %s" % r
 
+def F49():
+    """descriptor with an upper-case fingerprint is refused by its own parser"""
+    from buidl.descriptor import P2WSHSortedMulti
+    txt = ("wsh(sortedmulti(1,[c7d0648a/48h/1h/0h/2h]tpubDEpefcgzY6ZyEV2uF4xcW2z8bZ3DNeWx9h2BcwcX973BHrmkQxJhpAXoSWZeHkmkiTtnUjfERsTDTVCcifW6po3PFR1JRjUUTJHvPpDqJhr/0/*,"
+           "[12980eed/48h/1h/0h/2h]tpubDEkXGoQhYLFnYyzUGadtceUKbzVfXVorJEdo7c6VKJLHrULhpSVLC7fo89DDhjHmPvvNyrun2LTWH6FYmHh5VaQYPLEqLviVQKh45ufz8Ae/0/*))")
+    krs = [dict(k) for k in P2WSHSortedMulti.parse(txt).key_records]
+    krs[0]["xfp"] = krs[0]["xfp"].upper()
+    d = P2WSHSortedMulti(quorum_m=1, key_records=krs, sort_key_records=False)
+    try:
+        r = "parsed back, same text: %s" % (str(P2WSHSortedMulti.parse(str(d))) == str(d))
+    except Exception as e:
+        r = "%s: %s" % (type(e).__name__, str(e)[:60])
+    return not r.endswith("True"), "P2WSHSortedMulti.parse(str(P2WSHSortedMulti(xfp=C7D0648A…))) -> %s" % r
+
 def K1():
     from buidl.op import op_2rot
     st = [b"1", b"2", b"3", b"4", b"5", b"6"]
